@@ -182,6 +182,29 @@ theorem loaded_is_usable (b : Bytes) (h : Nat) (p : Provider Bytes) (t : Nat) (h
             rw [if_neg (by omega)]
           exact ⟨_, _, henc, fun hwf tbl => decode_encode tbl _ c hwf nonce ct _ _ hp32 hoff henc⟩
 
+/-- **startupAt_never_aborts** — whatever is at the key-storage-path (missing parent directory, a directory,
+    nothing, any file), the start never aborts; without a readable regular file it continues with fresh
+    keys. -/
+theorem startupAt_never_aborts (k : PathKind) (content : Bytes) (h : Nat) (fresh : Bytes) :
+    startupAt k content h fresh ≠ .abort ∧
+    (k ≠ .file → startupAt k content h fresh = .fresh (Provider.new h fresh)) := by
+  refine ⟨startup_never_aborts _ h fresh, ?_⟩
+  intro hk
+  simp [startupAt, hk, startup]
+
+/-- **store_path_outcomes** — the modelled store attempt (the code as it is): a missing parent directory or a
+    directory at the path makes it fail without creating anything (the daemon only warns and keeps its keys
+    in memory); a file is newly created only when the parent exists and the file does not, and then with
+    mode 0600; an existing file keeps its mode.  (The mode bits themselves are the OS's: stream c27_spawn
+    reads them from the real file system under umask 022 and 077.) -/
+theorem store_path_outcomes (m : Nat) :
+    storeOutcome .missingParent = .failed ∧ storeOutcome .directory = .failed ∧
+    modeAfter .missingParent m = none ∧ modeAfter .directory m = none ∧
+    (∀ k, storeOutcome k = .created ↔ k = .absent) ∧
+    modeAfter .absent m = some 600 ∧ modeAfter .file m = some m := by
+  refine ⟨rfl, rfl, rfl, rfl, ?_, rfl, rfl⟩
+  intro k; cases k <;> simp [storeOutcome]
+
 /-! #### the code as found -/
 
 /-- the last sentence of the property for the unfixed `load` -/
@@ -243,6 +266,8 @@ end NtpVerif.C27
 #print axioms NtpVerif.C27.prefix_rejected
 #print axioms NtpVerif.C27.corrupt_total
 #print axioms NtpVerif.C27.startup_never_aborts
+#print axioms NtpVerif.C27.startupAt_never_aborts
+#print axioms NtpVerif.C27.store_path_outcomes
 #print axioms NtpVerif.C27.crash_restores_or_fresh
 #print axioms NtpVerif.C27.loaded_is_usable
 #print axioms NtpVerif.C27.unfixed_violates
